@@ -93,13 +93,19 @@ class LineProbe:
         src, first = inspect.getsourcelines(func)
         self.targets = {}
         self.missing = []
+        self.counts = {}
         for pat, ev in patterns.items():
             hit = [first + o for o, l in enumerate(src) if pat in l]
             if not hit:
                 self.missing.append(pat)
-            for h in hit:
-                self.targets[h] = ev
-        self.counts = {ev: 0 for ev in patterns.values()}
+            # a list of names assigns one event per occurrence, in source order
+            names = ev if isinstance(ev, (list, tuple)) else [ev] * len(hit)
+            if len(names) != len(hit) and hit:
+                self.missing.append(pat)
+            for h, name in zip(hit, names):
+                self.targets[h] = name
+            for name in (ev if isinstance(ev, (list, tuple)) else [ev]):
+                self.counts[name] = 0
         self.tool = None
 
     def __enter__(self):
